@@ -2,7 +2,10 @@ import CanvasProofs.Lemmas.C15Ops
 import CanvasProofs.Lemmas.C15Core
 import CanvasProofs.Lemmas.C15Replay
 import CanvasProofs.Lemmas.C15Fit
-import CanvasProofs.C07
+import CanvasProofs.Lemmas.C15Spec
+import CanvasProofs.Lemmas.C15HeapLemmas
+import CanvasModel.C15Verdict
+import CanvasProofs.Lemmas.C15Mat
 import Mathlib.Tactic.Ring
 import Mathlib.Tactic.FieldSimp
 import Mathlib.Tactic.Linarith
@@ -95,6 +98,57 @@ theorem replay_order (h : List (Op α)) (W H : α) (view : Mat α) :
   exact ⟨(replayZ_snd o view cv).symm, replay_perm o view cv hw, replay_sorted o view cv hw,
     fun k => replay_stable o view cv hw k⟩
 
+/-! ### refinement to the abstract specification (no map: a canvas is its recording-order log) -/
+
+/-- For the canvas reached by any history (draws under arbitrary z-indices, Transform, Clip, Fit,
+Reset, nested RenderViewTo) the association list modelling the Go map `layers` is exactly the
+recording-order log grouped by z-index. -/
+theorem layers_are_grouped_log (h : List (Op α)) (W H : α) :
+    Grouped (run o h (newContext o (newCanvas W H))).cv :=
+  Grouped_run o h _ (Grouped_new W H)
+
+/-- The specification's sort is a sort, is stable, and is the only list with these properties. -/
+theorem stable_sort_spec {β : Type} (l : List (Int × β)) :
+    (stableSortZ l).Perm l ∧ (stableSortZ l).Pairwise (fun a b => a.1 ≤ b.1) ∧
+    (∀ k : Int, (stableSortZ l).filter (fun a => decide (a.1 = k)) = l.filter (fun a => decide (a.1 = k))) ∧
+    (∀ l' : List (Int × β), l'.Pairwise (fun a b => a.1 ≤ b.1) →
+      (∀ k : Int, l'.filter (fun a => decide (a.1 = k)) = l.filter (fun a => decide (a.1 = k))) → l' = stableSortZ l) :=
+  ⟨stableSortZ_perm l, stableSortZ_sorted l, stableSortZ_stable l,
+   fun l' h1 h2 => sorted_stable_unique l' _ h1 (stableSortZ_sorted l) (fun k => (h2 k).trans (stableSortZ_stable l k).symm)⟩
+
+/-- `RenderViewTo` emits exactly the log stably sorted by z, each call pre-multiplied by the view
+(an equation, for the canvas reached by any history). -/
+theorem replay_is_stable_sort (h : List (Op α)) (W H : α) (view : Mat α) :
+    let cv := (run o h (newContext o (newCanvas W H))).cv
+    cv.renderViewTo o view = (stableSortZ cv.log).map (fun zc => Call.pre o view zc.2) := by
+  intro cv
+  exact renderViewTo_eq_spec o view cv (Grouped_WF cv (layers_are_grouped_log o h W H))
+
+/-- Refinement: projecting the model state to the abstract state (Context state, stack, renderer
+calls, and a canvas that is only `(log, z, W, H)`) commutes with every history; the abstract machine
+`specStep` appends draws to the log under the current z, maps the log for Transform/Clip/Fit, clears
+it for Reset and flattens it for a nested replay. -/
+theorem refines_abstract_spec (h : List (Op α)) (W H : α) :
+    absCtx (run o h (newContext o (newCanvas W H))) = specRun o h (absCtx (newContext o (newCanvas W H))) :=
+  refinement_run o h _ (Grouped_new W H)
+
+/-- …and what `RenderViewTo` emits after any history is the replay of the abstract machine:
+the recorded operations in ascending z, then drawing order, each with the style and matrix recorded
+for it (moved by the canvas transformations applied since) . -/
+theorem replay_refines_spec (h : List (Op α)) (W H : α) (view : Mat α) :
+    (run o h (newContext o (newCanvas W H))).cv.renderViewTo o view
+      = ACanvas.replay o view (specRun o h (absCtx (newContext o (newCanvas W H)))).cv :=
+  replay_refines o h W H view
+
+/-- Nested canvases: replaying a canvas into a fresh canvas records the stably sorted replay in
+drawing order under the fresh canvas' z-index 0. -/
+theorem nested_canvas_log (h : List (Op α)) (W H W' H' : α) (view : Mat α) :
+    let src := (run o h (newContext o (newCanvas W H))).cv
+    (src.renderInto o view (newCanvas W' H')).log =
+      (stableSortZ src.log).map (fun zc => ((0 : Int), Call.pre o view zc.2)) := by
+  intro src
+  exact nested_replay_log o src view W' H' (Grouped_WF src (layers_are_grouped_log o h W H))
+
 end Generic
 
 /-! ## Part 2 — matrices: the generated definitions over an ordered field -/
@@ -104,18 +158,18 @@ variable (tr : K → K) (cd : K → List K → K → List K × Bool)
 /-- the elementary matrix of each view composer, as the code builds it -/
 def composerMat : Op K → Option (Mat K)
   | .composeView m => some m
-  | .translate x y => some (Matrix.Translate C07.ident x y)
-  | .reflectX => some (Matrix.ReflectX C07.ident)
-  | .reflectY => some (Matrix.ReflectY C07.ident)
-  | .reflectXAbout x => some (Matrix.ReflectXAbout C07.ident x)
-  | .reflectYAbout y => some (Matrix.ReflectYAbout C07.ident y)
-  | .rotate sn cs => some (Matrix.Mul C07.ident ⟨cs, -sn, 0, sn, cs, 0⟩)
+  | .translate x y => some (Matrix.Translate C15M.ident x y)
+  | .reflectX => some (Matrix.ReflectX C15M.ident)
+  | .reflectY => some (Matrix.ReflectY C15M.ident)
+  | .reflectXAbout x => some (Matrix.ReflectXAbout C15M.ident x)
+  | .reflectYAbout y => some (Matrix.ReflectYAbout C15M.ident y)
+  | .rotate sn cs => some (Matrix.Mul C15M.ident ⟨cs, -sn, 0, sn, cs, 0⟩)
   | .rotateAbout sn cs x y =>
-    some (Matrix.Translate (Matrix.Mul (Matrix.Translate C07.ident x y) ⟨cs, -sn, 0, sn, cs, 0⟩) (-x) (-y))
-  | .scale sx sy => some (Matrix.Scale C07.ident sx sy)
-  | .scaleAbout sx sy x y => some (Matrix.ScaleAbout C07.ident sx sy x y)
-  | .shear sx sy => some (Matrix.Shear C07.ident sx sy)
-  | .shearAbout sx sy x y => some (Matrix.ShearAbout C07.ident sx sy x y)
+    some (Matrix.Translate (Matrix.Mul (Matrix.Translate C15M.ident x y) ⟨cs, -sn, 0, sn, cs, 0⟩) (-x) (-y))
+  | .scale sx sy => some (Matrix.Scale C15M.ident sx sy)
+  | .scaleAbout sx sy x y => some (Matrix.ScaleAbout C15M.ident sx sy x y)
+  | .shear sx sy => some (Matrix.Shear C15M.ident sx sy)
+  | .shearAbout sx sy x y => some (Matrix.ShearAbout C15M.ident sx sy x y)
   | _ => none
 
 /-- the documented action of each composer on a point -/
@@ -139,7 +193,7 @@ is first transformed by the new `E` and then by the previous view. -/
 theorem views_postmultiply (op : Op K) (E : Mat K) (hE : composerMat op = some E) (c : Ctx K) :
     step (opsK tr cd) op c = c.withView (Matrix.Mul c.st.view E) ∧
     ∀ p, Matrix.Dot (Matrix.Mul c.st.view E) p = Matrix.Dot c.st.view (Matrix.Dot E p) := by
-  refine ⟨?_, fun p => C07.dot_mul _ _ _⟩
+  refine ⟨?_, fun p => C15M.dot_mul _ _ _⟩
   cases op <;> simp only [composerMat, Option.some.injEq, reduceCtorEq] at hE <;> subst hE <;> rfl
 
 /-- …and `E` acts on points as documented (Translate, Rotate by the angle whose sine/cosine are
@@ -147,14 +201,14 @@ given, Scale, Shear, Reflect, the *About variants about their centre). -/
 theorem composer_action (op : Op K) (E : Mat K) (hE : composerMat op = some E) (p : Pt K) :
     Matrix.Dot E p = composerAct op p := by
   cases op <;> simp only [composerMat, Option.some.injEq, reduceCtorEq] at hE <;> subst hE <;>
-    simp only [composerAct, C07.ident, Matrix.Translate, Matrix.ReflectX, Matrix.ReflectY, Matrix.ReflectXAbout,
+    simp only [composerAct, C15M.ident, Matrix.Translate, Matrix.ReflectX, Matrix.ReflectY, Matrix.ReflectXAbout,
       Matrix.ReflectYAbout, Matrix.Scale, Matrix.ScaleAbout, Matrix.Shear, Matrix.ShearAbout, Matrix.Mul,
       Matrix.Dot] <;>
     first | rfl | (congr 1 <;> ring)
 
 /-- ResetView / SetView replace the view. -/
 theorem view_reset_set (c : Ctx K) (m : Mat K) :
-    (step (opsK tr cd) .resetView c).st.view = C07.ident ∧ (step (opsK tr cd) (.setView m) c).st.view = m :=
+    (step (opsK tr cd) .resetView c).st.view = C15M.ident ∧ (step (opsK tr cd) (.setView m) c).st.view = m :=
   ⟨rfl, rfl⟩
 
 /-- The coordinate-system matrix puts the origin in the documented corner of the W×H canvas and
@@ -181,8 +235,8 @@ theorem csv_dot (cs : CoordSys) (W H : K) (q : Pt K) :
   · simpa [CoordSys.flipX, CoordSys.flipY] using h.2.2.1
   · simpa [CoordSys.flipX, CoordSys.flipY] using h.2.2.2
 
-theorem dot_ident (q : Pt K) : Matrix.Dot C07.ident q = q := by
-  cases q; simp [Matrix.Dot, C07.ident]
+theorem dot_ident (q : Pt K) : Matrix.Dot C15M.ident q = q := by
+  cases q; simp [Matrix.Dot, C15M.ident]
 
 /-- the matrix every draw starts from -/
 def baseK (c : Ctx K) (x y : K) : Mat K :=
@@ -196,7 +250,7 @@ theorem baseK_dot (c : Ctx K) (x y : K) (p : Pt K) :
     Matrix.Dot (baseK tr cd c x y) p =
       Matrix.Dot (csv (opsK tr cd) c.st.cs c.cv.W c.cv.H)
         (Matrix.Dot c.st.view ⟨p.x + (Matrix.Dot c.st.coordView ⟨x, y⟩).x, p.y + (Matrix.Dot c.st.coordView ⟨x, y⟩).y⟩) := by
-  rw [baseK, C07.translate_dot, C07.dot_mul]
+  rw [baseK, C15M.translate_dot, C15M.dot_mul]
 
 def visible (c : Ctx K) : Bool := c.st.style.hasFill || c.st.style.hasStroke (opsK tr cd)
 
@@ -209,17 +263,17 @@ theorem draw_matrix (c : Ctx K) (x y : K) (ps : List (PathRef K)) :
   unfold visible
   refine ⟨?_, ?_, ?_⟩
   · intro k hk
-    simp only [drawCalls] at hk
+    simp only [drawCalls, pathCalls] at hk
     split at hk
     · simp at hk
     · exact loopCalls_m _ _ _ _ _ _ k hk
   · intro hv
-    simp only [drawCalls]
+    simp only [drawCalls, pathCalls]
     split
     · rename_i h; simp_all
     · exact loopCalls_length ..
   · intro hv
-    simp only [drawCalls]
+    simp only [drawCalls, pathCalls]
     split
     · rfl
     · rename_i h; simp_all
@@ -243,10 +297,54 @@ theorem draw_style (c : Ctx K) (x y : K) (ps : List (PathRef K)) (hv : visible t
     drawCalls (opsK tr cd) (.drawPath x y ps) c =
       ps.map (fun p => ⟨.path p (styleFor cd c.st.style p), baseK tr cd c x y⟩) := by
   unfold visible at hv
-  simp only [drawCalls]
+  simp only [drawCalls, pathCalls]
   split
   · rename_i h; simp_all
   · rw [baseK_eq]; exact draw_style_loop tr cd c.st.style _ ps
+
+/-- `Fill()`, `Stroke()`, `FillStroke()` draw the current path at (0,0) exactly like `DrawPath` under a
+style whose stroke (resp. fill) paint is cleared (resp. the current style), and leave the Context
+state — in particular the style — exactly as it was. -/
+theorem fill_stroke_semantics (c : Ctx K) (p : PathRef K) :
+    drawCalls (opsK tr cd) (.fill p) c =
+      drawCalls (opsK tr cd) (.drawPath 0 0 [p]) (c.withStyle { c.st.style with stroke := Paint.none }) ∧
+    drawCalls (opsK tr cd) (.stroke p) c =
+      drawCalls (opsK tr cd) (.drawPath 0 0 [p]) (c.withStyle { c.st.style with fill := Paint.none }) ∧
+    drawCalls (opsK tr cd) (.fillStroke p) c = drawCalls (opsK tr cd) (.drawPath 0 0 [p]) c ∧
+    (step (opsK tr cd) (.fill p) c).st = c.st ∧ (step (opsK tr cd) (.stroke p) c).st = c.st ∧
+    (step (opsK tr cd) (.fillStroke p) c).st = c.st :=
+  ⟨rfl, rfl, rfl, (step_st_of_draw _ _ c (Or.inl rfl)).1, (step_st_of_draw _ _ c (Or.inl rfl)).1,
+   (step_st_of_draw _ _ c (Or.inl rfl)).1⟩
+
+/-- what `Fill()` sends to the renderer never carries a stroke paint, what `Stroke()` sends never a fill paint -/
+theorem fill_has_no_stroke (c : Ctx K) (p : PathRef K) :
+    (∀ k ∈ drawCalls (opsK tr cd) (.fill p) c, ∃ s, k.item = .path p s ∧ s.stroke = Paint.none ∧
+        s.fill = c.st.style.fill ∧ k.m = baseK tr cd c 0 0) ∧
+    (∀ k ∈ drawCalls (opsK tr cd) (.stroke p) c, ∃ s, k.item = .path p s ∧ s.fill = Paint.none ∧
+        k.m = baseK tr cd c 0 0) := by
+  constructor
+  · intro k hk
+    rw [(fill_stroke_semantics tr cd c p).1] at hk
+    by_cases hv : visible tr cd (c.withStyle { c.st.style with stroke := Paint.none }) = true
+    · rw [draw_style tr cd _ 0 0 [p] hv] at hk
+      simp only [List.map_cons, List.map_nil, List.mem_singleton] at hk
+      subst hk
+      refine ⟨_, rfl, ?_, rfl, rfl⟩
+      simp only [styleFor, Ctx.withStyle]
+      exact ite_self _
+    · have hv' : visible tr cd (c.withStyle { c.st.style with stroke := Paint.none }) = false := by simpa using hv
+      rw [(draw_matrix tr cd _ 0 0 [p]).2.2 hv'] at hk
+      cases hk
+  · intro k hk
+    rw [(fill_stroke_semantics tr cd c p).2.1] at hk
+    by_cases hv : visible tr cd (c.withStyle { c.st.style with fill := Paint.none }) = true
+    · rw [draw_style tr cd _ 0 0 [p] hv] at hk
+      simp only [List.map_cons, List.map_nil, List.mem_singleton] at hk
+      subst hk
+      exact ⟨_, rfl, rfl, rfl⟩
+    · have hv' : visible tr cd (c.withStyle { c.st.style with fill := Paint.none }) = false := by simpa using hv
+      rw [(draw_matrix tr cd _ 0 0 [p]).2.2 hv'] at hk
+      cases hk
 
 /-- DrawText: the extra reflections cancel the coordinate system's flips — the text is anchored at
 `CoordSystemView × View × CoordView·(x,y)` and, in every coordinate system, for the identity view
@@ -255,7 +353,7 @@ theorem text_upright (c : Ctx K) (x y : K) (t : TextRef K) (ht : t.empty = false
     ∃ m, drawCalls (opsK tr cd) (.drawText x y t) c = [⟨.text t, m⟩] ∧
       (∀ p : Pt K, Matrix.Dot m p = Matrix.Dot (baseK tr cd c x y)
         ⟨(if c.st.cs.flipX then -1 else 1) * p.x, (if c.st.cs.flipY then -1 else 1) * p.y⟩) ∧
-      (c.st.view = C07.ident → ∀ p : Pt K, Matrix.Dot m p =
+      (c.st.view = C15M.ident → ∀ p : Pt K, Matrix.Dot m p =
         ⟨(Matrix.Dot (baseK tr cd c x y) ⟨0, 0⟩).x + p.x, (Matrix.Dot (baseK tr cd c x y) ⟨0, 0⟩).y + p.y⟩) := by
   refine ⟨(fun m => if c.st.cs.flipX then Matrix.ReflectX m else m)
       ((fun m => if c.st.cs.flipY then Matrix.ReflectY m else m) (baseK tr cd c x y)), ?_, ?_, ?_⟩
@@ -291,7 +389,7 @@ theorem image_upright (c : Ctx K) (x y : K) (i : ImgRef K) (res : K) (hne : ¬ (
       (∀ p : Pt K, Matrix.Dot m p = Matrix.Dot (baseK tr cd c x y)
         ⟨(if c.st.cs.flipX then -1 else 1) * (p.x - (if c.st.cs.flipX then i.w else 0)) / res,
          (if c.st.cs.flipY then -1 else 1) * (p.y - (if c.st.cs.flipY then i.h else 0)) / res⟩) ∧
-      (c.st.view = C07.ident → ∀ p : Pt K, Matrix.Dot m p =
+      (c.st.view = C15M.ident → ∀ p : Pt K, Matrix.Dot m p =
         ⟨(Matrix.Dot (baseK tr cd c x y) ⟨0, 0⟩).x + (p.x - (if c.st.cs.flipX then i.w else 0)) / res,
          (Matrix.Dot (baseK tr cd c x y) ⟨0, 0⟩).y + (p.y - (if c.st.cs.flipY then i.h else 0)) / res⟩) := by
   have hz : ((opsK tr cd).beq i.w (opsK tr cd).zero && (opsK tr cd).beq i.h (opsK tr cd).zero) = false := by
@@ -337,10 +435,20 @@ theorem transform_consistent (m view : Mat K) (cv : Canvas K) :
   apply List.map_congr_left
   intro a _
   simp only [Function.comp, Call.pre, opsK]
-  rw [C07.mul_assoc]
+  rw [C15M.mul_assoc]
+
+/-- Nested canvases flatten: `a.RenderViewTo(b, view)` into a fresh `b`, then `b.RenderViewTo(r, view2)`
+sends `r` exactly what `a.RenderViewTo(r, view2 · view)` sends — for the canvas reached by any history. -/
+theorem nested_canvas_flattens (h : List (Op K)) (W H W' H' : K) (view view2 : Mat K) :
+    let src := (run (opsK tr cd) h (newContext (opsK tr cd) (newCanvas W H))).cv
+    (src.renderInto (opsK tr cd) view (newCanvas W' H')).renderViewTo (opsK tr cd) view2
+      = src.renderViewTo (opsK tr cd) (Matrix.Mul view2 view) := by
+  intro src
+  exact nested_replay (opsK tr cd) (fun a b c => C15M.mul_assoc a b c) src view view2 W' H'
+    (Grouped_WF src (layers_are_grouped_log (opsK tr cd) h W H))
 
 theorem clip_is_translation (r : Rct K) (cv : Canvas K) :
-    (cv.clip (opsK tr cd) r).layers = (cv.transform (opsK tr cd) (Matrix.Translate C07.ident (-r.x0) (-r.y0))).layers ∧
+    (cv.clip (opsK tr cd) r).layers = (cv.transform (opsK tr cd) (Matrix.Translate C15M.ident (-r.x0) (-r.y0))).layers ∧
     (cv.clip (opsK tr cd) r).W = r.x1 - r.x0 ∧ (cv.clip (opsK tr cd) r).H = r.y1 - r.y0 := ⟨rfl, rfl, rfl⟩
 
 /-- full statement of fit_inside: every layer with non-empty bounds ends up inside the margins -/
@@ -372,7 +480,7 @@ theorem fit_inside_partial (c : Ctx K) (μ : K) (hnd : NonDegenerate tr cd c.cv)
 /-- non-vacuity: a canvas with one 1×1 image layer under the identity matrix is non-degenerate
 (for any Epsilon below 1) -/
 example (heps : (Env.epsilon : K) < 1) :
-    NonDegenerate tr cd ({ layers := [(0, [⟨.image ⟨1, 1⟩, C07.ident⟩])], z := 0, W := 10, H := 10, log := [] } : Canvas K) := by
+    NonDegenerate tr cd ({ layers := [(0, [⟨.image ⟨1, 1⟩, C15M.ident⟩])], z := 0, W := 10, H := 10, log := [] } : Canvas K) := by
   intro kl hkl k hk _
   simp only [List.mem_singleton] at hkl
   subst hkl
@@ -380,10 +488,168 @@ example (heps : (Env.epsilon : K) < 1) :
   subst hk
   have h01 : ¬ ((1 : K) < 0) := not_lt.mpr zero_le_one
   have h10 : ¬ ((1 : K) ≤ Env.epsilon) := not_le.mpr heps
-  simp [rectEmpty, itemBounds, opsK, arithK, Rect.Transform, Matrix.Dot, C07.ident, Equal, h01, h10]
+  simp [rectEmpty, itemBounds, opsK, arithK, Rect.Transform, Matrix.Dot, C15M.ident, Equal, h01, h10]
+
+/-- non-vacuity of `draw_style`/`draw_matrix`: a fresh Context is visible (black fill), and stays so with a stroke -/
+example (W H : K) : visible tr cd (newContext (opsK tr cd) (newCanvas W H)) = true := by
+  simp [visible, newContext, defaultStyle, Style.hasFill, Paint.has, Paint.color]
+
+/-- non-vacuity of `views_postmultiply`: every composer has a matrix -/
+example (x y : K) : composerMat (Op.translate x y) = some (Matrix.Translate C15M.ident x y) := rfl
+
+/-- non-vacuity of `image_upright`: a 4×3 image is not the empty image -/
+example : ¬ ((⟨4, 3⟩ : ImgRef K).w = 0 ∧ (⟨4, 3⟩ : ImgRef K).h = 0) := by
+  intro h; exact four_ne_zero h.1
 
 /-- non-vacuity of `Balanced`: Push; Push; Pop; draw; Pop is balanced when wrapped -/
 example : Balanced ([Op.push, Op.pop, Op.resetView] : List (Op K)) :=
   Balanced.nest [] [Op.resetView] Balanced.nil (Balanced.op _ _ rfl Balanced.nil)
+
+/-! ## Verdict of the replay-order specification (`!` lines of the harness) -/
+section VerdictSpec
+
+theorem vInsert_eq {β : Type} (x : Int × β) (l : List (Int × β)) : vInsert x l = insertZ x l := by
+  induction l with
+  | nil => rfl
+  | cons y ys ih => simp only [vInsert, insertZ, ih]
+
+theorem vSort_eq {β : Type} (l : List (Int × β)) : vSort l = stableSortZ l := by
+  induction l with
+  | nil => rfl
+  | cons x xs ih =>
+    show vInsert x (vSort xs) = insertZ x (stableSortZ xs)
+    rw [ih, vInsert_eq]
+
+theorem firstDiff_none (a b : List Nat) (i : Nat) : firstDiff a b i = none ↔ a = b := by
+  induction a generalizing b i with
+  | nil => cases b <;> simp [firstDiff]
+  | cons x xs ih =>
+    cases b with
+    | nil => simp [firstDiff]
+    | cons y ys =>
+      simp only [firstDiff]
+      split
+      · rename_i h; subst h; simp [ih]
+      · rename_i h; simp [h]
+
+/-- Soundness and completeness of the executable verdict: it answers `ok` exactly when the replayed
+fingerprints are the recorded ones stably sorted by z — i.e. (by `stable_sort_spec`) a permutation,
+in ascending z, in drawing order within each z. -/
+theorem verdict_ok_iff (recorded : List (Int × Nat)) (replayed : List Nat) :
+    replayVerdict recorded replayed = Verdict.ok ↔ replayed = (stableSortZ recorded).map (·.2) := by
+  unfold replayVerdict
+  constructor
+  · intro h
+    split at h
+    · cases h
+    · split at h
+      · rename_i hn
+        rw [← vSort_eq]; exact ((firstDiff_none _ _ 0).mp hn).symm
+      · cases h
+  · intro h
+    have hl : recorded.length = replayed.length := by
+      rw [h, List.length_map, (stableSortZ_perm recorded).length_eq]
+    have hd : firstDiff ((vSort recorded).map (·.2)) replayed 0 = none := by
+      rw [firstDiff_none, vSort_eq, h]
+    simp [hl, hd]
+
+/-- The model passes the verdict after every history, for any fingerprint that ignores the matrix:
+a failing verdict on the real code is therefore a disagreement with the model's proven behaviour. -/
+theorem model_passes_verdict {α : Type} (o : Ops α) (h : List (Op α)) (W H : α) (view : Mat α)
+    (fp : Call α → Nat) (hfp : ∀ m c, fp (Call.pre o m c) = fp c) :
+    let cv := (run o h (newContext o (newCanvas W H))).cv
+    replayVerdict (cv.log.map (fun zc => (zc.1, fp zc.2))) ((cv.renderViewTo o view).map fp) = Verdict.ok := by
+  intro cv
+  rw [verdict_ok_iff, replay_is_stable_sort o h W H view]
+  show List.map fp (List.map (fun zc => Call.pre o view zc.2) (stableSortZ cv.log)) = _
+  rw [stableSortZ_map fp cv.log, List.map_map, List.map_map]
+  apply List.map_congr_left
+  intro a _
+  simp [Function.comp, hfp]
+
+/-- non-vacuity: the verdict rejects a replay in descending z and one that swaps equal z -/
+example : replayVerdict [(1, 10), (0, 20), (1, 30)] [20, 10, 30] = .ok := by decide
+example : replayVerdict [(1, 10), (0, 20), (1, 30)] [10, 30, 20] = .order 0 := by decide
+example : replayVerdict [(1, 10), (0, 20), (1, 30)] [20, 30, 10] = .order 1 := by decide
+
+end VerdictSpec
+
+/-! ## Part 3 — the slice-typed style field `Dashes` over an explicit heap (CanvasModel/C15Heap.lean)
+
+Slice headers over arrays by identity; `SetDashes` aliases the caller's array, `Push`/`Pop` and the
+recorded layer copy headers, `DrawPath` canonicalises into a fresh array; the caller may write into
+its own arrays at any time.  Tied to the code by the aliasing probes of harness/c15/alias.go. -/
+section HeapModel
+open Canvas.C15.Heap
+variable {β : Type} (zero : β) (cdv : β → List β → β → List β × Bool)
+
+/-- No Context/Canvas operation writes into an existing array: the heap only grows. -/
+theorem dashes_library_never_writes (op : Heap.Op β) (s : Heap.State β) (h : op.isCallerWrite = false) :
+    s.heap <+: (Heap.step zero cdv op s).heap := C15.Heap.lib_never_writes zero cdv op s h
+
+/-- A recorded layer reads the same dash pattern after ANY later history — setters, draws, Push/Pop
+and writes of the caller into every array it owns included. -/
+theorem dashes_recorded_immune (pre ops : List (Heap.Op β)) (l : Heap.HLayer β)
+    (hl : l ∈ (Heap.run zero cdv pre (Heap.init zero)).layers) :
+    Heap.deref (Heap.run zero cdv (pre ++ ops) (Heap.init zero)).heap l.dashes
+      = Heap.deref (Heap.run zero cdv pre (Heap.init zero)).heap l.dashes := by
+  rw [C15.Heap.run_append]
+  exact C15.Heap.recorded_immune zero cdv ops _ (C15.Heap.Inv_run zero cdv pre _ (C15.Heap.Inv_init zero)) l hl
+
+/-- Value semantics: as long as the caller does not write into an array it has handed over, the
+heap machine is observationally the pure value machine (dashes as lists: SetDashes replaces, Push
+copies, Pop restores, DrawPath records the canonical pattern) — the semantics of the main model. -/
+theorem dashes_value_semantics (ops : List (Heap.Op β)) (hw : ∀ op ∈ ops, op.isCallerWrite = false) :
+    C15.Heap.absState (Heap.run zero cdv ops (Heap.init zero)) =
+      C15.Heap.vrun zero cdv (C15.Heap.toVs zero cdv ops (Heap.init zero)) (C15.Heap.absState (Heap.init zero)) :=
+  C15.Heap.value_semantics_run zero cdv ops _ hw (C15.Heap.Inv_init zero)
+
+/-- Push … Pop around any balanced history restores the dash slice header exactly (always), and the
+dash *values* provided the caller wrote to none of its arrays in between. -/
+theorem dashes_push_pop_restore (pre ops : List (Heap.Op β)) (hb : C15.Heap.bal 0 ops = true) :
+    let s := Heap.run zero cdv pre (Heap.init zero)
+    ((Heap.run zero cdv (.push :: ops ++ [.pop]) s).cur = s.cur ∧
+     (Heap.run zero cdv (.push :: ops ++ [.pop]) s).stack = s.stack) ∧
+    ((∀ op ∈ ops, op.isCallerWrite = false) →
+      (C15.Heap.absState (Heap.run zero cdv (.push :: ops ++ [.pop]) s)).cur = (C15.Heap.absState s).cur) := by
+  intro s
+  refine ⟨C15.Heap.push_pop_header zero cdv s ops hb, fun hw => ?_⟩
+  exact (C15.Heap.push_pop_value zero cdv s ops hw hb (C15.Heap.Inv_run zero cdv pre _ (C15.Heap.Inv_init zero))).1
+
+/-- the dash component (offset, pattern) of a Context state of the MAIN model -/
+def dashOf {γ : Type} (st : CState γ) : γ × List γ := (st.style.dashOff, st.style.dashes)
+
+/-- which value-machine operation a main-model operation is, as far as the dashes are concerned -/
+def dashOp {γ : Type} : Canvas.C15.Op γ → C15.Heap.VOp γ
+  | .setDashes off d => .setDashes off d
+  | .push => .push
+  | .pop => .pop
+  | .resetStyle => .resetStyle
+  | _ => .nop
+
+/-- Link: on the dash component, the main (value-semantics) model of the Context *is* the value
+machine to which the heap model reduces: every operation other than a draw transforms
+(current dashes, stack of dashes) exactly as `vstep` does. (What a draw records is `draw_style`.) -/
+theorem dashes_main_model_is_value_machine {γ : Type} (o : Ops γ) (cdv' : γ → List γ → γ → List γ × Bool)
+    (op : Canvas.C15.Op γ) (c : Ctx γ) (hd : op.isDraw = false) (ls : List (γ × List γ × Bool)) :
+    (C15.Heap.vstep o.zero cdv' (dashOp op) ⟨dashOf c.st, c.stack.map dashOf, ls⟩) =
+      ⟨dashOf (Canvas.C15.step o op c).st, (Canvas.C15.step o op c).stack.map dashOf, ls⟩ := by
+  cases op <;> simp [Op.isDraw] at hd
+  case pop =>
+    cases hs : c.stack with
+    | nil => rw [pop_empty_noop o c hs]; simp [dashOp, C15.Heap.vstep, hs]
+    | cons t rest => rw [step_pop_of_stack o c t rest hs]; simp [dashOp, C15.Heap.vstep]
+  all_goals rfl
+
+/-- non-vacuity / documentation of Go semantics: `SetDashes` does alias the caller's array (a write
+after the call is visible in the current style) while the layer drawn before the write is not affected -/
+example :
+    Heap.observe (Heap.run (0 : Nat) (fun _ d _ => (d, true))
+      [.callerAlloc [1, 2, 3], .setDashes 0 ⟨1, 0, 3⟩, .drawPath 10, .callerWrite 1 0 9] (Heap.init 0))
+      = ([9, 2, 3], [([1, 2, 3], true)]) := by decide
+
+example : C15.Heap.bal 0 ([.push, .drawPath 3, .pop, .resetStyle] : List (Heap.Op Nat)) = true := by decide
+
+end HeapModel
 
 end C15
